@@ -3,6 +3,7 @@ import hashlib
 import json
 import math
 import os
+import signal
 import sys
 import time
 import traceback
@@ -139,6 +140,19 @@ class _Found(Exception):
     pass
 
 
+class CaseTimeout(KeyboardInterrupt):
+    """one case ran longer than the per-case limit: the case is inconclusive (never a violation); derived from
+    KeyboardInterrupt so that no 'except Exception' / re-raising 'except BaseException' of a check swallows it"""
+
+
+def _alarm(signum, frame):
+    raise CaseTimeout()
+
+
+def case_limit(ctx):
+    return int(os.environ.get("VERIF_CASE_TIMEOUT", 120 if ctx.quick else 600))
+
+
 def drive(ctx, strategy, body, max_examples, salt=0, max_rounds=4, label=""):
     """Run `body(case) -> Failure|None` over `strategy` under Hypothesis.
 
@@ -163,12 +177,23 @@ def drive(ctx, strategy, body, max_examples, salt=0, max_rounds=4, label=""):
                 # must keep failing for Hypothesis' final replay); the rest is skipped
                 if digest(case) not in holder["failing"]:
                     return
+            if holder.get("timeouts", 0) >= 3:
+                return      # this search is inconclusive already (counted); do not burn the watchdog on it
+            signal.signal(signal.SIGALRM, _alarm)
+            signal.alarm(case_limit(ctx))
             try:
                 f = body(case)
             except hypothesis.errors.HypothesisException:
                 raise
+            except CaseTimeout:
+                holder["timeouts"] = holder.get("timeouts", 0) + 1
+                ctx.stats.extra["cases_timed_out"] = ctx.stats.extra.get("cases_timed_out", 0) + 1
+                ctx.stats.notes.append(f"a case of '{label}' exceeded the per-case limit of {case_limit(ctx)} s (inconclusive)")
+                return
             except (KeyboardInterrupt, SystemExit, MemoryError):
                 raise
+            finally:
+                signal.alarm(0)
             if f is None:
                 return
             if f.sig in ctx.known_sigs:
